@@ -1,17 +1,21 @@
 (* C20 - The GUI parameter index stays coherent over any edit history.
-   Model: Model/Index.v (interface.index as a state machine; [step fixed]: fixed = false is the code
-   as it is, fixed = true is pop_state/set_state repaired to invalidate the cached python object).
+   Model: Model/Index.v (interface.index as a state machine; [step fixed]: fixed = true is the code
+   as it is, fixed = false is pop_state/set_state before the repair of finding F12, which left the
+   cached python object in place; kept for the refutation theorem).  push_state / set_state copy a
+   tree by value (copy.deepcopy, /repo d2d0b2d; the self-fetch they used before was finding F23): they
+   call no library function.
    The library functions fetch / extract / format are universally quantified; what each theorem
    assumes about them is a named hypothesis:
      H_fmt     extract (format master p) = p on round-trip objects (pyok)           [C09]
      H_ext_ok  extraction results are round-trip objects                             [C09]
-     H_tmpl    is_template of a fetch result is -1, 0 or 1 (only needed at set-up)
-     self-fetch identity  fetch w [] = w  (C20_pop_restores_same only)               [C07-like]
+     H_tmpl    is_template of a fetch result is -1, 0 or 1 (only needed at set-up: __init__ indexes
+               master.fetch() with index_phil_objects, every later state with reindex_phil_objects)
      H_refetch fetch m [prune (fetch m [prune w; u]); u] = fetch m [prune w; u]
                (C20_update_twice only)                                               [C07-like]
+   The stack theorems (C20_pop_restores, C20_stack_ops_total) assume nothing about the library.
    Inv s := (dirty s = false -> forall p, params s = Some p -> extract (working s) = OOk p)   cache coherent
          /\ pidx s = widx (index_of (working s))                 path index = re-indexing of the working tree
-         /\ Forall fetched (states s)                            stacked states are t.fetch() copies
+         /\ Forall reindexable (states s)                        re-indexing a stacked state does not raise
          /\ (forall p, params s = Some p -> pyok p)              the cached object is a round-trip object
          /\ werr (index_of (working s)) = None                   re-indexing the working tree does not raise
    Histories are lists of operations of any length, run = fold_left step.  [run_ok] says that every
@@ -27,16 +31,16 @@ Import ListNotations.
 (* the invariant holds after __init__ *)
 Theorem C20_inv_init : forall py fetch extract master pyok (s0:state py),
   H_tmpl fetch -> H_ext_ok py extract pyok ->
-  init py fetch extract master = OOk s0 -> Inv py fetch extract pyok s0.
+  init py fetch extract master = OOk s0 -> Inv py extract pyok s0.
 Proof. exact inv_init. Qed.
 Print Assumptions C20_inv_init.
 
 (* every operation of the property preserves it (repaired machine) *)
 Theorem C20_inv_step : forall py fetch extract format master pyok (s:state py) (o:op py),
   H_fmt py extract format master pyok -> H_ext_ok py extract pyok ->
-  Inv py fetch extract pyok s -> op_ok py pyok o ->
+  Inv py extract pyok s -> op_ok py pyok o ->
   ~ broke py (snd (step py fetch extract format master true s o)) ->
-  Inv py fetch extract pyok (fst (step py fetch extract format master true s o)).
+  Inv py extract pyok (fst (step py fetch extract format master true s o)).
 Proof. exact inv_step. Qed.
 Print Assumptions C20_inv_step.
 
@@ -45,7 +49,7 @@ Theorem C20_reachable : forall py fetch extract format master pyok (ops:list (op
   H_fmt py extract format master pyok -> H_ext_ok py extract pyok -> H_tmpl fetch ->
   init py fetch extract master = OOk s0 ->
   run_ok py fetch extract format master pyok ops s0 ->
-  Inv py fetch extract pyok (run py fetch extract format master true ops s0).
+  Inv py extract pyok (run py fetch extract format master true ops s0).
 Proof. exact reachable_from_init. Qed.
 Print Assumptions C20_reachable.
 
@@ -60,8 +64,8 @@ Theorem C20_handout : forall py fetch extract format master pyok (ops:list (op p
 Proof. exact handout_reachable. Qed.
 Print Assumptions C20_handout.
 
-(* the code as it is: after push; update; get_python_object; pop_state the cached object is handed
-   out although the working tree extracts to something else (finding F12) *)
+(* pop_state before its repair (fixed = false): after push; update; get_python_object; pop_state the
+   cached object is handed out although the working tree extracts to something else (finding F12) *)
 (* cinit / crun fx / cstep fx = init / run fx / step fx of the small concrete library of IndexExamples.v
    (master m1: "a = 1 .type = int"); hist_f12 = [Push; Update "a = 2"; GetPy; Pop] *)
 Theorem C20_refuted_pop_stale :
@@ -72,23 +76,25 @@ Proof. exact refuted_pop_stale. Qed.
 Print Assumptions C20_refuted_pop_stale.
 
 (* stack discipline: after a push, any balanced history and the matching pop, the working tree is
-   the copy made at the push and the stack is as before the push (either machine) *)
-Theorem C20_pop_restores : forall py fetch extract format master fx (s:state py) c l s1,
-  fetch (working s) [] = OOk c ->
+   the working tree at the push and the stack is as before the push (either machine; no hypothesis
+   on the library, from any state) *)
+Theorem C20_pop_restores : forall py fetch extract format master fx (s:state py) l s1,
   balanced py fetch extract format master fx (step1 py fetch extract format master fx s Push) l s1 ->
   s1 = run py fetch extract format master fx (Push :: l) s
-  /\ working (step1 py fetch extract format master fx s1 Pop) = c
+  /\ working (step1 py fetch extract format master fx s1 Pop) = working s
   /\ states (step1 py fetch extract format master fx s1 Pop) = states s.
 Proof. exact pop_restores. Qed.
 Print Assumptions C20_pop_restores.
 
-(* ... which is the working tree of the push itself when t.fetch() copies t faithfully *)
-Theorem C20_pop_restores_same : forall py fetch extract format master fx (s:state py) l s1,
-  fetch (working s) [] = OOk (working s) ->
-  balanced py fetch extract format master fx (step1 py fetch extract format master fx s Push) l s1 ->
-  working (step1 py fetch extract format master fx s1 Pop) = working s.
-Proof. exact pop_restores_same. Qed.
-Print Assumptions C20_pop_restores_same.
+(* in a state satisfying the invariant push_state / pop_state / set_state never raise after having
+   changed the index: the tree they re-index is a copy of a former working tree *)
+Theorem C20_stack_ops_total : forall py fetch extract format master pyok fx (s:state py),
+  Inv py extract pyok s ->
+  ~ broke py (snd (step py fetch extract format master fx s Push))
+  /\ ~ broke py (snd (step py fetch extract format master fx s Pop))
+  /\ forall i, ~ broke py (snd (step py fetch extract format master fx s (SetState i))).
+Proof. exact stack_ops_total. Qed.
+Print Assumptions C20_stack_ops_total.
 
 (* the same update applied twice in a row: the second application leaves the working tree alone,
    provided re-fetching the update on top of its own result is stable (H_refetch) *)
@@ -104,7 +110,7 @@ Print Assumptions C20_update_twice.
    object at the recorded position of the CURRENT working tree, and the path asked for is that
    object's full path *)
 Theorem C20_lookup_live : forall py fetch extract format master pyok fx (s:state py) path e,
-  Inv py fetch extract pyok s ->
+  Inv py extract pyok s ->
   snd (step py fetch extract format master fx s (GetScopeByName path)) = OEntry (Some e) ->
   forall q o, In (q, o) (objs_of e) ->
   exists pre, locate [] (working s) q = Some (o, pre) /\ join_path pre (oname (ohdr o)) = path.
@@ -115,7 +121,7 @@ Print Assumptions C20_lookup_live.
    under its full path; if no other position of the working tree has that full path (paths outside
    multiple scopes of a fetched tree), the look-up returns exactly that object *)
 Theorem C20_lookup_complete : forall py fetch extract format master pyok fx (s:state py) q o pre,
-  Inv py fetch extract pyok s -> visible (working s) q = true -> locate [] (working s) q = Some (o, pre) ->
+  Inv py extract pyok s -> visible (working s) q = true -> locate [] (working s) q = Some (o, pre) ->
   (forall q' o' pre', locate [] (working s) q' = Some (o', pre') ->
      join_path pre' (oname (ohdr o')) = join_path pre (oname (ohdr o)) -> q' = q) ->
   exists e, snd (step py fetch extract format master fx s (GetScopeByName (join_path pre (oname (ohdr o))))) = OEntry (Some e)
